@@ -11,6 +11,131 @@ import Earverif.Model.XmlCustom
 namespace Earverif.XmlBlocks
 open Earverif.XmlCodec Earverif.XmlCustom Earverif.TimeFormat
 
+/-! ### plain data of the nested classes (values on the printable grid, references as id strings) -/
+
+/-- `AudioBlockFormatObjects` -/
+structure ObjectsBlock where
+  id : String
+  rtime : Option Time
+  duration : Option Time
+  position : ObjectPosition
+  channelLock : Option ChannelLock
+  jumpPosition : JumpPosition
+  objectDivergence : Option ObjectDivergence
+  width : Int
+  height : Int
+  depth : Int
+  diffuse : Int
+  cartesian : Bool
+  screenRef : Bool
+  zoneExclusion : List Zone
+  gain : Int
+  importance : Int
+  deriving DecidableEq, Repr
+
+/-- `AudioBlockFormatDirectSpeakers` -/
+structure DirectSpeakersBlock where
+  id : String
+  rtime : Option Time
+  duration : Option Time
+  speakerLabel : List String
+  position : SpeakerPosition
+  gain : Int
+  importance : Int
+  deriving DecidableEq, Repr
+
+/-- `AudioBlockFormatHoa` -/
+structure HoaBlock where
+  id : String
+  rtime : Option Time
+  duration : Option Time
+  equation : Option String
+  order : Option Int
+  degree : Option Int
+  normalization : Option String
+  nfcRefDist : Option Int
+  screenRef : Option Bool
+  gain : Int
+  importance : Int
+  deriving DecidableEq, Repr
+
+/-- `AudioBlockFormatBinaural` -/
+structure BinauralBlock where
+  id : String
+  rtime : Option Time
+  duration : Option Time
+  gain : Int
+  importance : Int
+  deriving DecidableEq, Repr
+
+/-- `MatrixCoefficient`; `inputChannelFormat` is the id of the referenced audioChannelFormat (`to_xml` needs one) -/
+structure Coefficient where
+  inputChannelFormat : String
+  gain : Option Int
+  phase : Option Int
+  delay : Option Int
+  gainVar : Option String
+  phaseVar : Option String
+  delayVar : Option String
+  deriving DecidableEq, Repr
+
+/-- `AudioBlockFormatMatrix` -/
+structure MatrixBlock where
+  id : String
+  rtime : Option Time
+  duration : Option Time
+  outputChannelFormat : Option String
+  matrix : List Coefficient
+  gain : Int
+  importance : Int
+  deriving DecidableEq, Repr
+
+inductive Block where
+  | objects (b : ObjectsBlock)
+  | directSpeakers (b : DirectSpeakersBlock)
+  | hoa (b : HoaBlock)
+  | binaural (b : BinauralBlock)
+  | matrix (b : MatrixBlock)
+  deriving DecidableEq, Repr
+
+/-- `LoudnessMetadata` -/
+structure Loudness where
+  loudnessMethod : Option String
+  loudnessRecType : Option String
+  loudnessCorrectionType : Option String
+  integratedLoudness : Option Int
+  loudnessRange : Option Int
+  maxTruePeak : Option Int
+  maxMomentary : Option Int
+  maxShortTerm : Option Int
+  dialogueLoudness : Option Int
+  deriving DecidableEq, Repr
+
+/-- `PolarScreen` / `CartesianScreen` (the kind is the kind of the centre position) -/
+structure Screen where
+  aspectRatio : Int
+  centrePosition : CentrePosition
+  width : Int
+  deriving DecidableEq, Repr
+
+/-- `AudioObjectInteraction` -/
+structure Interaction where
+  onOffInteract : Bool
+  gainInteract : Option Bool
+  positionInteract : Option Bool
+  gainInteractionRange : Option GainRange
+  positionInteractionRange : Option PosRange
+  deriving DecidableEq, Repr
+
+/-- `AlternativeValueSet` -/
+structure AVS where
+  id : String
+  gain : Option Int
+  mute : Option Bool
+  positionOffset : Option PositionOffset
+  audioObjectInteraction : Option Interaction
+  deriving DecidableEq, Repr
+
 inductive XV where
   | leaf (l : Leaf)
   | opos (p : ObjectPosition)
@@ -20,6 +145,18 @@ inductive XV where
   | zones (zs : List Zone)
   /-- a gain read with `gainUnit="dB"` (`10 ** (k/100000/20)`, not on the printable grid) -/
   | gainDB (k : Int)
+  | spos (p : SpeakerPosition)
+  | freq (f : Frequency)
+  | poff (p : PositionOffset)
+  | cpos (c : CentrePosition)
+  | grange (r : GainRange)
+  | prange (r : PosRange)
+  | screen (s : Screen)
+  | interaction (i : Interaction)
+  | avs (a : AVS)
+  | loud (l : Loudness)
+  | coeffs (cs : List Coefficient)
+  | block (b : Block)
   deriving DecidableEq, Repr
 
 /-- a leaf codec on the extended values -/
@@ -116,25 +253,6 @@ def objectsProps (rows : List Row) : List (Property XV) := rows.map (ofRowG lift
 
 /-! ### the class `AudioBlockFormatObjects` -/
 
-structure ObjectsBlock where
-  id : String
-  rtime : Option Time
-  duration : Option Time
-  position : ObjectPosition
-  channelLock : Option ChannelLock
-  jumpPosition : JumpPosition
-  objectDivergence : Option ObjectDivergence
-  width : Int
-  height : Int
-  depth : Int
-  diffuse : Int
-  cartesian : Bool
-  screenRef : Bool
-  zoneExclusion : List Zone
-  gain : Int
-  importance : Int
-  deriving DecidableEq, Repr
-
 def optTime : Option Time → XV
   | some t => .leaf (.time t)
   | none => .leaf .none
@@ -168,5 +286,579 @@ def objectsDefaults : Obj XV := fun a =>
   else if a = "gain" then .one (.leaf (.num 100000))
   else if a = "importance" then .one (.leaf (.int 10))
   else .one (.leaf .none)
+
+/-- the Objects block-format parser, concretely (`Proofs/C08Blocks.lean`: this is what `ofRowG` builds from the
+regenerated table rows) -/
+def objPs (v2 : Bool) : List (Property XV) :=
+  [ .attr "audioBlockFormatID" "id" (liftCodec stringCodec) true (.leaf .none),
+    .attr "rtime" "rtime" (liftCodec (timeCodec v2)) false (.leaf .none),
+    .attr "duration" "duration" (liftCodec (timeCodec v2)) false (.leaf .none),
+    .genericElement none false positionImpl,
+    .customElement "channelLock" none false channelLockImpl,
+    .customElement "jumpPosition" none false jumpImpl,
+    .customElement "objectDivergence" none false divergenceImpl,
+    .attrElement "width" "width" (liftCodec floatCodec) false (.leaf (.num 0)) false,
+    .attrElement "height" "height" (liftCodec floatCodec) false (.leaf (.num 0)) false,
+    .attrElement "depth" "depth" (liftCodec floatCodec) false (.leaf (.num 0)) false,
+    .attrElement "diffuse" "diffuse" (liftCodec floatCodec) false (.leaf (.num 0)) false,
+    .attrElement "cartesian" "cartesian" (liftCodec boolCodec) false (.leaf (.bool false)) false,
+    .attrElement "screenRef" "screenRef" (liftCodec boolCodec) false (.leaf (.bool false)) false,
+    .customElement "zoneExclusion" (some "zoneExclusion") false zoneImpl,
+    .customElement "gain" none false (gainImpl v2),
+    .attrElement "importance" "importance" (liftCodec intCodec) false (.leaf (.int 10)) false ]
+
+
+/-! ### builders for the recurring shapes of hand-written handlers -/
+
+/-- a `CustomElement` that stores one value under `arg` and writes at most one element named `adm`: `read` converts
+an element (given whether `arg` is already present in `kwargs`), `write` is the `to_xml` side on the object's value -/
+def singleImpl (arg adm : String) (read : Bool → Xml → Option XV) (write : XV → List Xml) : CustomImpl XV where
+  handle kw x := (read (kw arg).isSome x).map fun v => setOne kw arg v
+  attrsOut _ := []
+  childrenOut o := match o arg with | .one v => write v | .many _ => []
+  own := [arg]
+  eff o a := if a = arg then
+      (match o arg with | .one v => if (write v).isEmpty then none else some (.one v) | .many _ => none)
+    else none
+  childNames := [adm]
+
+/-- a `CustomElement` that appends one value per element to the list `arg` (`as_list_handler`, the
+audioBlockFormat handler): `read` may look at the other keyword arguments, `write` at the other attributes -/
+def listImpl (arg adm : String) (read : Kw XV → Xml → Option XV) (write : Obj XV → XV → Xml) : CustomImpl XV where
+  handle kw x :=
+    match read kw x with
+    | none => none
+    | some v =>
+      match kw arg with
+      | none => some (kw.set arg (.many [v]))
+      | some (.many vs) => some (kw.set arg (.many (vs ++ [v])))
+      | some (.one _) => none
+  attrsOut _ := []
+  childrenOut o := match o arg with | .many vs => vs.map (write o) | .one _ => []
+  own := [arg]
+  eff o a := if a = arg then
+      (match o arg with | .many vs => if vs = [] then none else some (.many vs) | .one _ => none)
+    else none
+  childNames := [adm]
+
+/-- a `GenericElement` that reads the children named `adm` (through `xpath`) and stores at most one value
+under `arg`; `read` returns `some none` when nothing is to be stored -/
+def xpathImpl (arg adm : String) (read : List Xml → Option (Option XV)) (write : XV → List Xml) : CustomImpl XV where
+  handle kw e := (read (xpathChildren e adm)).map fun r => match r with
+    | some v => setOne kw arg v
+    | none => kw
+  attrsOut _ := []
+  childrenOut o := match o arg with | .one v => write v | .many _ => []
+  own := [arg]
+  eff o a := if a = arg then
+      (match o arg with | .one v => if (write v).isEmpty then none else some (.one v) | .many _ => none)
+    else none
+  childNames := [adm]
+
+/-- `make_no_element_before_v2(parent, el_name, not_default)` as used by the BS.2076-1 parsers: the handler
+refuses the element; `to_xml` writes nothing (and raises when `not_default(obj)` — objects using a BS.2076-2
+feature are outside the domain of the BS.2076-1 theorems, see the `Valid` predicates) -/
+def noV2Impl : CustomImpl XV := { handle := fun _ _ => none, attrsOut := fun _ => [], childrenOut := fun _ => [] }
+
+/-! ### reading values back from keyword arguments (the constructors) -/
+
+def optStrV : Option String → XV
+  | some s => .leaf (.str s)
+  | none => .leaf .none
+def optNumV : Option Int → XV
+  | some k => .leaf (.num k)
+  | none => .leaf .none
+def optIntV : Option Int → XV
+  | some k => .leaf (.int k)
+  | none => .leaf .none
+def optBoolV : Option Bool → XV
+  | some b => .leaf (.bool b)
+  | none => .leaf .none
+
+def getStr : Val XV → Option String
+  | .one (.leaf (.str s)) => some s
+  | _ => none
+def getOptStr : Val XV → Option (Option String)
+  | .one (.leaf (.str s)) => some (some s)
+  | .one (.leaf .none) => some none
+  | _ => none
+def getNum : Val XV → Option Int
+  | .one (.leaf (.num k)) => some k
+  | _ => none
+def getOptNum : Val XV → Option (Option Int)
+  | .one (.leaf (.num k)) => some (some k)
+  | .one (.leaf .none) => some none
+  | _ => none
+def getInt : Val XV → Option Int
+  | .one (.leaf (.int k)) => some k
+  | _ => none
+def getOptInt : Val XV → Option (Option Int)
+  | .one (.leaf (.int k)) => some (some k)
+  | .one (.leaf .none) => some none
+  | _ => none
+def getBool : Val XV → Option Bool
+  | .one (.leaf (.bool b)) => some b
+  | _ => none
+def getOptBool : Val XV → Option (Option Bool)
+  | .one (.leaf (.bool b)) => some (some b)
+  | .one (.leaf .none) => some none
+  | _ => none
+def getOptTime : Val XV → Option (Option Time)
+  | .one (.leaf (.time t)) => some (some t)
+  | .one (.leaf .none) => some none
+  | _ => none
+def strOf : XV → Option String
+  | .leaf (.str s) => some s
+  | _ => none
+def getStrs : Val XV → Option (List String)
+  | .many vs => vs.mapM strOf
+  | .one _ => none
+
+/-! ### loudnessMetadata -/
+
+abbrev noneLeaf : XV := .leaf .none
+abbrev strAttr (adm arg : String) (req : Bool) : Property XV := .attr adm arg (liftCodec stringCodec) req noneLeaf
+abbrev numElem (adm : String) : Property XV := .attrElement adm adm (liftCodec floatCodec) false noneLeaf false
+
+def loudnessPs : List (Property XV) :=
+  [ strAttr "loudnessMethod" "loudnessMethod" false, strAttr "loudnessRecType" "loudnessRecType" false,
+    strAttr "loudnessCorrectionType" "loudnessCorrectionType" false,
+    numElem "integratedLoudness", numElem "loudnessRange", numElem "maxTruePeak", numElem "maxMomentary",
+    numElem "maxShortTerm", numElem "dialogueLoudness" ]
+
+/-- every constructor default is `None` -/
+def noneDefaults : Obj XV := fun _ => .one noneLeaf
+
+def Loudness.toObj (l : Loudness) : Obj XV := fun a =>
+  if a = "loudnessMethod" then .one (optStrV l.loudnessMethod)
+  else if a = "loudnessRecType" then .one (optStrV l.loudnessRecType)
+  else if a = "loudnessCorrectionType" then .one (optStrV l.loudnessCorrectionType)
+  else if a = "integratedLoudness" then .one (optNumV l.integratedLoudness)
+  else if a = "loudnessRange" then .one (optNumV l.loudnessRange)
+  else if a = "maxTruePeak" then .one (optNumV l.maxTruePeak)
+  else if a = "maxMomentary" then .one (optNumV l.maxMomentary)
+  else if a = "maxShortTerm" then .one (optNumV l.maxShortTerm)
+  else if a = "dialogueLoudness" then .one (optNumV l.dialogueLoudness)
+  else .one noneLeaf
+
+/-- `LoudnessMetadata(**kwargs)` -/
+def Loudness.ofObj (o : Obj XV) : Option Loudness := do
+  some ⟨← getOptStr (o "loudnessMethod"), ← getOptStr (o "loudnessRecType"), ← getOptStr (o "loudnessCorrectionType"),
+    ← getOptNum (o "integratedLoudness"), ← getOptNum (o "loudnessRange"), ← getOptNum (o "maxTruePeak"),
+    ← getOptNum (o "maxMomentary"), ← getOptNum (o "maxShortTerm"), ← getOptNum (o "dialogueLoudness")⟩
+
+/-- `loudness_handler.as_list_handler("loudnessMetadata")` -/
+def loudnessListImpl : CustomImpl XV :=
+  listImpl "loudnessMetadata" "loudnessMetadata"
+    (fun _ x => ((parse loudnessPs noneDefaults x).bind Loudness.ofObj).map .loud)
+    (fun _ v => toXml loudnessPs "loudnessMetadata" (match v with | .loud l => l.toObj | _ => noneDefaults))
+
+/-! ### audioProgrammeReferenceScreen (`screen_handler`, class `make_screen`) -/
+
+/-- `kwargs.get("screen_type")` -/
+def curType (kw : Kw XV) : Option String :=
+  match kw "screen_type" with
+  | some (.one (.leaf (.str t))) => some t
+  | _ => none
+
+/-- `CustomElement("screenCentrePosition", handle_centre_position, …, to_xml=centre_position_to_xml)` -/
+def centreImpl : CustomImpl XV where
+  handle kw x := (handleCentrePosition (curType kw) x).map fun r =>
+    setOne (setOne kw "centrePosition" (.cpos r.1)) "screen_type" (.leaf (.str r.2))
+  attrsOut _ := []
+  childrenOut o := match o "centrePosition" with | .one (.cpos c) => [centrePositionToXml c] | _ => []
+  own := ["centrePosition", "screen_type"]
+  childNames := ["screenCentrePosition"]
+
+/-- `CustomElement("screenWidth", handle_screen_width, …, to_xml=screen_width_to_xml)`; `isinstance(obj,
+CartesianScreen)` is read through the pseudo-argument `screen_type` -/
+def widthImpl : CustomImpl XV where
+  handle kw x := (handleScreenWidth (curType kw) x).map fun r =>
+    setOne (setOne kw "width" (.leaf (.num r.1))) "screen_type" (.leaf (.str r.2))
+  attrsOut _ := []
+  childrenOut o := match o "width", o "screen_type" with
+    | .one (.leaf (.num w)), .one (.leaf (.str t)) => [screenWidthToXml (t == "cartesian") w]
+    | _, _ => []
+  own := ["width", "screen_type"]
+  childNames := ["screenWidth"]
+
+def screenPs : List (Property XV) :=
+  [ .attr "aspectRatio" "aspectRatio" (liftCodec floatCodec) true noneLeaf,
+    .customElement "screenCentrePosition" (some "centrePosition") true centreImpl,
+    .customElement "screenWidth" (some "width") true widthImpl ]
+
+def Screen.toObj (s : Screen) : Obj XV := fun a =>
+  if a = "aspectRatio" then .one (.leaf (.num s.aspectRatio))
+  else if a = "centrePosition" then .one (.cpos s.centrePosition)
+  else if a = "width" then .one (.leaf (.num s.width))
+  else if a = "screen_type" then .one (.leaf (.str s.centrePosition.kind))
+  else .one noneLeaf
+
+/-- `make_screen(aspectRatio, centrePosition, width, screen_type)`: the screen classes validate the type of the
+centre position -/
+def Screen.ofObj (o : Obj XV) : Option Screen := do
+  let a ← getNum (o "aspectRatio")
+  let w ← getNum (o "width")
+  let t ← getStr (o "screen_type")
+  match o "centrePosition" with
+  | .one (.cpos c) => if c.kind = t then some ⟨a, c, w⟩ else none
+  | _ => none
+
+/-- `default_screen` -/
+def defaultScreen : Screen := ⟨178000, .polar 0 0 100000, 5800000⟩
+
+/-- `screen_handler.as_handler("referenceScreen", default=default_screen)` -/
+def screenImpl : CustomImpl XV :=
+  singleImpl "referenceScreen" "audioProgrammeReferenceScreen"
+    (fun _ x => ((parse screenPs noneDefaults x).bind Screen.ofObj).map .screen)
+    (fun v => match v with
+      | .screen s => if s ≠ defaultScreen then [toXml screenPs "audioProgrammeReferenceScreen" s.toObj] else []
+      | _ => [])
+
+/-! ### audioObjectInteraction -/
+
+def gainRangeImpl (v2 : Bool) : CustomImpl XV :=
+  xpathImpl "gainInteractionRange" "gainInteractionRange"
+    (fun es => (parseGainRange v2 es).map fun r => r.map .grange)
+    (fun v => match v with | .grange r => gainRangeToXml (some r) | _ => [])
+
+def posRangeImpl : CustomImpl XV :=
+  xpathImpl "positionInteractionRange" "positionInteractionRange"
+    (fun es => (parsePosRange es).map fun r => r.map .prange)
+    (fun v => match v with | .prange r => posRangeToXml (some r) | _ => [])
+
+abbrev boolAttr (adm : String) (req : Bool) : Property XV := .attr adm adm (liftCodec boolCodec) req noneLeaf
+
+def interactionPs (v2 : Bool) : List (Property XV) :=
+  [ boolAttr "onOffInteract" true, boolAttr "gainInteract" false, boolAttr "positionInteract" false,
+    .genericElement none false (gainRangeImpl v2), .genericElement none false posRangeImpl ]
+
+def Interaction.toObj (i : Interaction) : Obj XV := fun a =>
+  if a = "onOffInteract" then .one (.leaf (.bool i.onOffInteract))
+  else if a = "gainInteract" then .one (optBoolV i.gainInteract)
+  else if a = "positionInteract" then .one (optBoolV i.positionInteract)
+  else if a = "gainInteractionRange" then .one (match i.gainInteractionRange with | some r => .grange r | none => noneLeaf)
+  else if a = "positionInteractionRange" then
+    .one (match i.positionInteractionRange with | some r => .prange r | none => noneLeaf)
+  else .one noneLeaf
+
+/-- `AudioObjectInteraction(**kwargs)` -/
+def Interaction.ofObj (o : Obj XV) : Option Interaction := do
+  let oo ← getBool (o "onOffInteract")
+  let gi ← getOptBool (o "gainInteract")
+  let pi ← getOptBool (o "positionInteract")
+  let gr ← match o "gainInteractionRange" with
+    | .one (.grange r) => some (some r)
+    | .one (.leaf .none) => some none
+    | _ => none
+  let pr ← match o "positionInteractionRange" with
+    | .one (.prange r) => some (some r)
+    | .one (.leaf .none) => some none
+    | _ => none
+  some ⟨oo, gi, pi, gr, pr⟩
+
+/-- `make_audioObjectInteraction_handler().as_handler("audioObjectInteraction")` -/
+def interactionImpl (v2 : Bool) : CustomImpl XV :=
+  singleImpl "audioObjectInteraction" "audioObjectInteraction"
+    (fun _ x => ((parse (interactionPs v2) noneDefaults x).bind Interaction.ofObj).map .interaction)
+    (fun v => match v with
+      | .interaction i => [toXml (interactionPs v2) "audioObjectInteraction" i.toObj]
+      | _ => [])
+
+/-! ### positionOffset, alternativeValueSet -/
+
+/-- `position_offset_handler` -/
+def offsetImpl : CustomImpl XV :=
+  xpathImpl "positionOffset" "positionOffset"
+    (fun es => (parsePositionOffset es).map fun r => r.map .poff)
+    (fun v => match v with | .poff p => positionOffsetToXml (some p) | _ => [])
+
+/-- `CustomElement("gain", handle_gain_element_v2, to_xml=optional_gain_to_xml)` (both versions) -/
+def optGainImpl : CustomImpl XV :=
+  singleImpl "gain" "gain" (fun present x => (handleGainElement true present x).map gainValue)
+    (fun v => match v with | .leaf (.num k) => optionalGainToXml (some k) | _ => [])
+
+def avsPs (v2 : Bool) : List (Property XV) :=
+  [ strAttr "alternativeValueSetID" "id" true,
+    .customElement "gain" none false optGainImpl,
+    .attrElement "mute" "mute" (liftCodec boolCodec) false noneLeaf false,
+    .genericElement none false offsetImpl,
+    .customElement "audioObjectInteraction" (some "audioObjectInteraction") false (interactionImpl v2) ]
+
+def optOffset : Option PositionOffset → XV
+  | some p => .poff p
+  | none => noneLeaf
+def optInteraction : Option Interaction → XV
+  | some i => .interaction i
+  | none => noneLeaf
+
+def AVS.toObj (a : AVS) : Obj XV := fun k =>
+  if k = "id" then .one (.leaf (.str a.id))
+  else if k = "gain" then .one (optNumV a.gain)
+  else if k = "mute" then .one (optBoolV a.mute)
+  else if k = "positionOffset" then .one (optOffset a.positionOffset)
+  else if k = "audioObjectInteraction" then .one (optInteraction a.audioObjectInteraction)
+  else .one noneLeaf
+
+def getOptOffset : Val XV → Option (Option PositionOffset)
+  | .one (.poff p) => some (some p)
+  | .one (.leaf .none) => some none
+  | _ => none
+def getOptInteraction : Val XV → Option (Option Interaction)
+  | .one (.interaction i) => some (some i)
+  | .one (.leaf .none) => some none
+  | _ => none
+
+/-- `AlternativeValueSet(**kwargs)` (values on the grid) -/
+def AVS.ofObj (o : Obj XV) : Option AVS := do
+  some ⟨← getStr (o "id"), ← getOptNum (o "gain"), ← getOptBool (o "mute"), ← getOptOffset (o "positionOffset"),
+    ← getOptInteraction (o "audioObjectInteraction")⟩
+
+/-- `make_alternativeValueSet_handler().as_list_handler("alternativeValueSets")` -/
+def avsListImpl (v2 : Bool) : CustomImpl XV :=
+  listImpl "alternativeValueSets" "alternativeValueSet"
+    (fun _ x => ((parse (avsPs v2) noneDefaults x).bind AVS.ofObj).map .avs)
+    (fun _ v => toXml (avsPs v2) "alternativeValueSet" (match v with | .avs a => a.toObj | _ => noneDefaults))
+
+/-! ### Matrix coefficient -/
+
+/-- `gain_attribute_v1` / `gain_attribute_v2` (a `GenericElement` on the element's attributes) -/
+def gainAttrImpl (v2 : Bool) : CustomImpl XV where
+  handle kw e := (handleGainAttribute v2 e).map fun r => match r with
+    | some g => setOne kw "gain" (gainValue g)
+    | none => kw
+  attrsOut o := match o "gain" with | .one (.leaf (.num k)) => gainAttributeToXml (some k) | _ => []
+  childrenOut _ := []
+  own := ["gain"]
+  eff o a := if a = "gain" then
+      (match o "gain" with | .one (.leaf (.num k)) => some (.one (.leaf (.num k))) | _ => none)
+    else none
+
+abbrev numAttr (adm : String) : Property XV := .attr adm adm (liftCodec floatCodec) false noneLeaf
+
+def coeffPs (v2 : Bool) : List (Property XV) :=
+  [ .handleText "inputChannelFormatIDRef" (liftCodec stringCodec),
+    .genericElement none false (gainAttrImpl v2),
+    numAttr "phase", numAttr "delay", strAttr "gainVar" "gainVar" false, strAttr "phaseVar" "phaseVar" false,
+    strAttr "delayVar" "delayVar" false ]
+
+def Coefficient.toObj (c : Coefficient) : Obj XV := fun a =>
+  if a = "inputChannelFormatIDRef" then .one (.leaf (.str c.inputChannelFormat))
+  else if a = "gain" then .one (optNumV c.gain)
+  else if a = "phase" then .one (optNumV c.phase)
+  else if a = "delay" then .one (optNumV c.delay)
+  else if a = "gainVar" then .one (optStrV c.gainVar)
+  else if a = "phaseVar" then .one (optStrV c.phaseVar)
+  else if a = "delayVar" then .one (optStrV c.delayVar)
+  else .one noneLeaf
+
+/-- `MatrixCoefficient(**kwargs)` (values on the grid) -/
+def Coefficient.ofObj (o : Obj XV) : Option Coefficient := do
+  some ⟨← getStr (o "inputChannelFormatIDRef"), ← getOptNum (o "gain"), ← getOptNum (o "phase"), ← getOptNum (o "delay"),
+    ← getOptStr (o "gainVar"), ← getOptStr (o "phaseVar"), ← getOptStr (o "delayVar")⟩
+
+def parseCoefficient (v2 : Bool) (x : Xml) : Option Coefficient :=
+  (parse (coeffPs v2) noneDefaults x).bind Coefficient.ofObj
+
+/-- `handle_matrix` / `matrix_to_xml`: one `matrix` element (always written) holding the coefficients -/
+def matrixImpl (v2 : Bool) : CustomImpl XV :=
+  singleImpl "matrix" "matrix"
+    (fun present x => if present then none                       -- "multiple matrix elements found"
+      else ((xpathChildren x "coefficient").mapM (parseCoefficient v2)).map .coeffs)
+    (fun v => match v with
+      | .coeffs cs => [.node (outName "matrix") [] (cs.map fun c => toXml (coeffPs v2) "coefficient" c.toObj) ""]
+      | _ => [])
+
+/-! ### the other block formats -/
+
+/-- `block_format_props` -/
+def blockHead (v2 : Bool) : List (Property XV) :=
+  [ strAttr "audioBlockFormatID" "id" true,
+    .attr "rtime" "rtime" (liftCodec (timeCodec v2)) false noneLeaf,
+    .attr "duration" "duration" (liftCodec (timeCodec v2)) false noneLeaf ]
+
+/-- `make_gain_element_v2(...)` -/
+def gainElemV2 (v2 : Bool) : Property XV := .customElement "gain" none false (if v2 then gainImpl true else noV2Impl)
+
+/-- `make_default_importance_element_v2(...)` -/
+def importanceV2 (v2 : Bool) : Property XV :=
+  if v2 then .attrElement "importance" "importance" (liftCodec intCodec) false (.leaf (.int 10)) false
+  else .customElement "importance" none false noV2Impl
+
+/-- `GenericElement(handle_speaker_position, speaker_position_to_xml)` -/
+def speakerImpl : CustomImpl XV :=
+  xpathImpl "position" "position" (fun es => (parseSpeakerPosition es).map fun p => some (.spos p))
+    (fun v => match v with | .spos p => speakerPositionToXml p | _ => [])
+
+def dsPs (v2 : Bool) : List (Property XV) :=
+  blockHead v2 ++
+  [ .listElement "speakerLabel" "speakerLabel" (liftCodec stringCodec) false false,
+    .genericElement none false speakerImpl, gainElemV2 v2, importanceV2 v2 ]
+
+abbrev optElem (adm : String) (c : Codec Leaf) : Property XV := .attrElement adm adm (liftCodec c) false noneLeaf false
+
+def hoaPs (v2 : Bool) : List (Property XV) :=
+  blockHead v2 ++
+  [ optElem "equation" stringCodec, optElem "order" intCodec, optElem "degree" intCodec,
+    optElem "normalization" stringCodec, optElem "nfcRefDist" floatCodec, optElem "screenRef" boolCodec,
+    gainElemV2 v2, importanceV2 v2 ]
+
+def binauralPs (v2 : Bool) : List (Property XV) := blockHead v2 ++ [gainElemV2 v2, importanceV2 v2]
+
+def matrixPs (v2 : Bool) : List (Property XV) :=
+  blockHead v2 ++
+  [ .attrElement "outputChannelFormatIDRef" "outputChannelFormatIDRef" (liftCodec stringCodec) false noneLeaf false,
+    .attrElement "outputChannelIDRef" "outputChannelFormatIDRef" (liftCodec stringCodec) false noneLeaf true,
+    .customElement "matrix" none false (matrixImpl v2), gainElemV2 v2, importanceV2 v2 ]
+
+/-- the constructor defaults shared by the block-format classes: `gain=1.0`, `importance=10`, the rest `None`
+(`position` has no usable default: it is always written; `speakerLabel` is a list) -/
+def blockDefaults : Obj XV := fun a =>
+  if a = "gain" then .one (.leaf (.num 100000))
+  else if a = "importance" then .one (.leaf (.int 10))
+  else if a = "speakerLabel" then .many []
+  else if a = "matrix" then .one (.coeffs [])
+  else .one noneLeaf
+
+def DirectSpeakersBlock.toObj (b : DirectSpeakersBlock) : Obj XV := fun a =>
+  if a = "id" then .one (.leaf (.str b.id))
+  else if a = "rtime" then .one (optTime b.rtime)
+  else if a = "duration" then .one (optTime b.duration)
+  else if a = "speakerLabel" then .many (b.speakerLabel.map fun s => .leaf (.str s))
+  else if a = "position" then .one (.spos b.position)
+  else if a = "gain" then .one (.leaf (.num b.gain))
+  else if a = "importance" then .one (.leaf (.int b.importance))
+  else .one noneLeaf
+
+def DirectSpeakersBlock.ofObj (o : Obj XV) : Option DirectSpeakersBlock := do
+  let p ← match o "position" with | .one (.spos p) => some p | _ => none
+  some ⟨← getStr (o "id"), ← getOptTime (o "rtime"), ← getOptTime (o "duration"), ← getStrs (o "speakerLabel"), p,
+    ← getNum (o "gain"), ← getInt (o "importance")⟩
+
+def HoaBlock.toObj (b : HoaBlock) : Obj XV := fun a =>
+  if a = "id" then .one (.leaf (.str b.id))
+  else if a = "rtime" then .one (optTime b.rtime)
+  else if a = "duration" then .one (optTime b.duration)
+  else if a = "equation" then .one (optStrV b.equation)
+  else if a = "order" then .one (optIntV b.order)
+  else if a = "degree" then .one (optIntV b.degree)
+  else if a = "normalization" then .one (optStrV b.normalization)
+  else if a = "nfcRefDist" then .one (optNumV b.nfcRefDist)
+  else if a = "screenRef" then .one (optBoolV b.screenRef)
+  else if a = "gain" then .one (.leaf (.num b.gain))
+  else if a = "importance" then .one (.leaf (.int b.importance))
+  else .one noneLeaf
+
+def HoaBlock.ofObj (o : Obj XV) : Option HoaBlock := do
+  some ⟨← getStr (o "id"), ← getOptTime (o "rtime"), ← getOptTime (o "duration"), ← getOptStr (o "equation"),
+    ← getOptInt (o "order"), ← getOptInt (o "degree"), ← getOptStr (o "normalization"), ← getOptNum (o "nfcRefDist"),
+    ← getOptBool (o "screenRef"), ← getNum (o "gain"), ← getInt (o "importance")⟩
+
+def BinauralBlock.toObj (b : BinauralBlock) : Obj XV := fun a =>
+  if a = "id" then .one (.leaf (.str b.id))
+  else if a = "rtime" then .one (optTime b.rtime)
+  else if a = "duration" then .one (optTime b.duration)
+  else if a = "gain" then .one (.leaf (.num b.gain))
+  else if a = "importance" then .one (.leaf (.int b.importance))
+  else .one noneLeaf
+
+def BinauralBlock.ofObj (o : Obj XV) : Option BinauralBlock := do
+  some ⟨← getStr (o "id"), ← getOptTime (o "rtime"), ← getOptTime (o "duration"), ← getNum (o "gain"),
+    ← getInt (o "importance")⟩
+
+def MatrixBlock.toObj (b : MatrixBlock) : Obj XV := fun a =>
+  if a = "id" then .one (.leaf (.str b.id))
+  else if a = "rtime" then .one (optTime b.rtime)
+  else if a = "duration" then .one (optTime b.duration)
+  else if a = "outputChannelFormatIDRef" then .one (optStrV b.outputChannelFormat)
+  else if a = "matrix" then .one (.coeffs b.matrix)
+  else if a = "gain" then .one (.leaf (.num b.gain))
+  else if a = "importance" then .one (.leaf (.int b.importance))
+  else .one noneLeaf
+
+def MatrixBlock.ofObj (o : Obj XV) : Option MatrixBlock := do
+  let m ← match o "matrix" with | .one (.coeffs cs) => some cs | _ => none
+  some ⟨← getStr (o "id"), ← getOptTime (o "rtime"), ← getOptTime (o "duration"),
+    ← getOptStr (o "outputChannelFormatIDRef"), m, ← getNum (o "gain"), ← getInt (o "importance")⟩
+
+/-- `AudioBlockFormatObjects(**kwargs)` (values on the grid; a gain read in dB is outside) -/
+def ObjectsBlock.ofObj (o : Obj XV) : Option ObjectsBlock := do
+  let p ← match o "position" with | .one (.opos p) => some p | _ => none
+  let cl ← match o "channelLock" with
+    | .one (.clock c) => some (some c)
+    | .one (.leaf .none) => some none
+    | _ => none
+  let j ← match o "jumpPosition" with | .one (.jump j) => some j | _ => none
+  let d ← match o "objectDivergence" with
+    | .one (.diverg d) => some (some d)
+    | .one (.leaf .none) => some none
+    | _ => none
+  let z ← match o "zoneExclusion" with | .one (.zones zs) => some zs | _ => none
+  some ⟨← getStr (o "id"), ← getOptTime (o "rtime"), ← getOptTime (o "duration"), p, cl, j, d, ← getNum (o "width"),
+    ← getNum (o "height"), ← getNum (o "depth"), ← getNum (o "diffuse"), ← getBool (o "cartesian"),
+    ← getBool (o "screenRef"), z, ← getNum (o "gain"), ← getInt (o "importance")⟩
+
+def Block.toObj : Block → Obj XV
+  | .objects b => b.toObj
+  | .directSpeakers b => b.toObj
+  | .hoa b => b.toObj
+  | .binaural b => b.toObj
+  | .matrix b => b.toObj
+
+/-- `TypeDefinition` member name of the class of a block format -/
+def Block.kind : Block → String
+  | .objects _ => "Objects"
+  | .directSpeakers _ => "DirectSpeakers"
+  | .hoa _ => "HOA"
+  | .binaural _ => "Binaural"
+  | .matrix _ => "Matrix"
+
+/-- `make_block_format_handlers()[type]` by the name of the `TypeDefinition` member -/
+def blockPs (v2 : Bool) (ty : String) : List (Property XV) :=
+  if ty = "Objects" then objPs v2
+  else if ty = "DirectSpeakers" then dsPs v2
+  else if ty = "HOA" then hoaPs v2
+  else if ty = "Binaural" then binauralPs v2
+  else if ty = "Matrix" then matrixPs v2
+  else []
+
+def blockCd (ty : String) : Obj XV := if ty = "Objects" then objectsDefaults else blockDefaults
+
+/-- `handlers[type].parse(el)`, including the class constructor -/
+def parseBlock (v2 : Bool) (ty : String) (x : Xml) : Option Block :=
+  (parse (blockPs v2 ty) (blockCd ty) x).bind fun o =>
+    if ty = "Objects" then (ObjectsBlock.ofObj o).map .objects
+    else if ty = "DirectSpeakers" then (DirectSpeakersBlock.ofObj o).map .directSpeakers
+    else if ty = "HOA" then (HoaBlock.ofObj o).map .hoa
+    else if ty = "Binaural" then (BinauralBlock.ofObj o).map .binaural
+    else if ty = "Matrix" then (MatrixBlock.ofObj o).map .matrix
+    else none
+
+/-- the name of the `TypeDefinition` stored under `type` -/
+def typeName? : Option (Val XV) → Option String
+  | some (.one (.leaf (.enum n _))) => some n
+  | _ => none
+
+/-- `make_block_format_handler()`: parse by `kwargs["type"]`, write by `obj.type` -/
+def blocksImpl (v2 : Bool) : CustomImpl XV :=
+  listImpl "audioBlockFormats" "audioBlockFormat"
+    (fun kw x => (typeName? (kw "type")).bind fun n => (parseBlock v2 n x).map .block)
+    (fun o v => toXml (blockPs v2 ((typeName? (some (o "type"))).getD "")) "audioBlockFormat"
+      (match v with | .block b => b.toObj | _ => noneDefaults))
+
+/-- `CustomElement("frequency", handle_frequency, to_xml=frequency_to_xml)` -/
+def frequencyImpl : CustomImpl XV where
+  handle kw x :=
+    (handleFrequency (match kw "frequency" with | some (.one (.freq f)) => f | _ => ⟨none, none⟩) x).map fun f =>
+      setOne kw "frequency" (.freq f)
+  attrsOut _ := []
+  childrenOut o := match o "frequency" with | .one (.freq f) => frequencyToXml f | _ => []
+  own := ["frequency"]
+  eff o a := if a = "frequency" then
+      (match o "frequency" with
+        | .one (.freq f) => if f = ⟨none, none⟩ then none else some (.one (.freq f))
+        | _ => none)
+    else none
+  childNames := ["frequency"]
 
 end Earverif.XmlBlocks
